@@ -121,7 +121,7 @@ func sloppyTagCases(e *Env) error {
 			}
 		}
 		c := &Case{Templates: map[string]string{"main": src.String()}, Main: "main", Ctx: ctx, FailAt: -1}
-		im, _, _, err := compareCase(e, c, "render-model-c04", "correspondence render (Lean pipeline vs real engine) on literal text around tags with partly scannable content")
+		im, _, _, err := c04Compare(e, c, "render-model-c04", "correspondence render (Lean pipeline vs real engine) on literal text around tags with partly scannable content")
 		if err != nil {
 			return err
 		}
